@@ -81,6 +81,7 @@ fn base_ops() -> Vec<(&'static str, u32)> {
         ("sorted", 0),
         ("eq", 0),
         ("into_vec", 1),
+        ("deser_seq", 0),
     ]
 }
 
@@ -127,7 +128,7 @@ pub fn profile(prop: u8, thorough: bool) -> Profile {
             p.reserve_overflow = true;
             p.hashers = ALL_HASHERS;
             p.ops = base_ops().into_iter().map(|(n, w)| (n, w.max(2).min(6))).collect();
-            p.ops = with(p.ops, &[("adaptor", 1), ("sorted", 2), ("serde", 2), ("eq", 1), ("push", 8), ("remove", 6)]);
+            p.ops = with(p.ops, &[("adaptor", 1), ("sorted", 2), ("serde", 2), ("deser_seq", 2), ("eq", 1), ("push", 8), ("remove", 6)]);
         }
         6 => {
             p.ops = with(p.ops, &[("sorted", 14), ("sorted_iter", 4), ("retain", 1), ("drain", 0), ("clear", 0)]);
@@ -179,7 +180,7 @@ pub fn profile(prop: u8, thorough: bool) -> Profile {
             p.ops = with(p.ops, &[("eq", 10), ("clone", 8)]);
         }
         15 => {
-            p.ops = with(p.ops, &[("serde", 24)]);
+            p.ops = with(p.ops, &[("serde", 20), ("deser_seq", 14)]);
             p.max_ops = if thorough { 60 } else { 24 };
             p.dom_w = [4, 3, 2, 2];
         }
@@ -429,6 +430,16 @@ pub fn op_strategy(p: &Profile, kind: Kind, u: u32, dom: u8) -> BoxedStrategy<Op
                 .boxed(),
             "eq" => Just(Op::EqProbe).boxed(),
             "into_vec" => Just(Op::IntoVecRebuild).boxed(),
+            "deser_seq" => (
+                prop_oneof![
+                    vec((0..u.min(6).max(1), any::<u32>(), prio_val(dom)), 0..40),
+                    vec((0..u.max(1), any::<u32>(), prio_val(dom)), 0..40),
+                ],
+                prop_oneof![Just(Carrier::JsonText), Just(Carrier::JsonValue), Just(Carrier::SeqDe)],
+                any::<bool>(),
+            )
+                .prop_map(|(pairs, carrier, cross)| Op::DeserSeq { pairs, carrier, cross })
+                .boxed(),
             other => panic!("unknown op name {}", other),
         };
         v.push((*w, s));
